@@ -4,7 +4,8 @@
    that it emits none of ( ) , : ; where the round trip needs it); nothing is an axiom. *)
 From Coq Require Import List ZArith Bool.
 From TskVerif Require Import Base.Common Gen.Generated C18.Model C18.ParserProofs C18.WriterProofs
-  C18.BufferProofs C18.TextProofs C18.LabelProofs C18.FastaProofs C18.SafetyProofs C18.AsNewickProofs.
+  C18.BufferProofs C18.TextProofs C18.LabelProofs C18.FastaProofs C18.SafetyProofs C18.IterProofs
+  C18.AsNewickProofs.
 Import ListNotations.
 Open Scope Z_scope.
 
@@ -24,6 +25,16 @@ Theorem newick_parse_print :
       parse_newick (py_newick Tm tsub print_num tm lab ibl prec t)
       = Ok (ast_of Tm tsub print_num tm lab ibl prec None t).
 Proof. exact newick_roundtrip. Qed.
+
+(* text_formats.build_newick as it is now (iterative: post-order + dictionary of finished
+   subtrees) returns exactly the string of the recursive writer used as specification above *)
+Theorem build_newick_iterative_is_recursive :
+  forall (Tm : Type) (tsub : Tm -> Tm -> Tm) (print_num : Z -> Tm -> str) (tm : Z -> Tm)
+         (lab : Z -> str) (ibl : bool) (prec : Z) (t : rtree),
+    NoDup (ids t) ->
+    it_newick Tm tsub print_num tm lab ibl prec t
+    = Ok (py_newick Tm tsub print_num tm lab ibl prec t).
+Proof. exact it_newick_eq_recursive. Qed.
 
 (* (b) tsk_newick_converter_run on the tree arrays = _build_newick on tree.children(), for
    every tree, whenever the caller's buffer holds the string, ';' and the NUL *)
@@ -77,76 +88,39 @@ Theorem fast_equals_general_ms_labels :
 Proof. exact fast_general_ms. Qed.
 
 (* End to end, over the path choice of Tree.as_newick (fast path iff branch lengths are wanted
-   and the labels are the default or the legacy ms ones): a returned string parses back to the
-   tree below the root with the requested labels and branch tokens ... *)
+   and the labels are the default or the legacy ms ones): as_newick SUCCEEDS on every tree and
+   root, given only that W = len(f"{max_branch:.{precision}f}") bounds the branch tokens ... *)
+Theorem as_newick_succeeds :
+  forall (Tm : Type) (tsub : Tm -> Tm -> Tm) (print_num : Z -> Tm -> str) (tm : Z -> Tm)
+         (a : ctree) (N rp : Z) (t : rtree),
+    repb a rp t = true -> nodupb (ids t) = true -> memb rp (ids t) = false ->
+    (forall v, In v (ids t) -> 0 <= v < N) ->
+    (forall v, In v (ids t) -> exists f, get (ct_flags a) v = Ok f) ->
+    forall (l : labspec) (ibl : bool) (prec W : Z),
+      0 <= W ->
+      (forall p c, In (p, c) (redges t) -> zlen (btoken Tm tsub print_num tm prec p c) <= W) ->
+      as_newick Tm tsub print_num tm a N t l ibl prec W
+      = Ok (py_newick Tm tsub print_num tm (lab_fn a t l) ibl prec t).
+Proof. exact AsNewickProofs.as_newick_succeeds. Qed.
+
+(* ... and whatever it returns parses back to the tree below the root with the requested
+   labels (default / legacy ms for the leaves below the root / dictionary) and branch tokens *)
 Theorem as_newick_output_parses_back :
-  forall (Tm : Type) (tsub : Tm -> Tm -> Tm) (print_num : Z -> Tm -> str) (tm : Z -> Tm),
+  forall (Tm : Type) (tsub : Tm -> Tm -> Tm) (print_num : Z -> Tm -> str) (tm : Z -> Tm)
+         (a : ctree) (N rp : Z) (t : rtree),
+    repb a rp t = true -> nodupb (ids t) = true -> memb rp (ids t) = false ->
+    (forall v, In v (ids t) -> 0 <= v < N) ->
+    (forall v, In v (ids t) -> exists f, get (ct_flags a) v = Ok f) ->
     (forall p x, cleanb (print_num p x) = true) ->
-    forall (a : ctree) (N rp : Z) (t : rtree) (whole_leaves : list Z),
-      repb a rp t = true -> nodupb (ids t) = true -> memb rp (ids t) = false ->
-      0 <= rid t < N ->
-      (forall v, In v (ids t) -> exists f, get (ct_flags a) v = Ok f) ->
-      (forall v, In v (ids t) -> memb v whole_leaves = memb v (leaf_ids t)) ->
-      forall (l : labspec) (ibl : bool) (prec T : Z) (s : str),
-        labels_clean t l ->
-        as_newick Tm tsub print_num tm a N t whole_leaves l ibl prec T = Ok s ->
-        parse_newick s
-        = Ok (ast_of Tm tsub print_num tm (lab_fn a whole_leaves l) ibl prec None t).
+    forall (l : labspec) (ibl : bool) (prec W : Z) (s : str),
+      labels_clean t l ->
+      as_newick Tm tsub print_num tm a N t l ibl prec W = Ok s ->
+      parse_newick s = Ok (ast_of Tm tsub print_num tm (lab_fn a t l) ibl prec None t).
 Proof. exact as_newick_parses_back. Qed.
 
-(* ... and the only way as_newick does not return (in the model) is the fast path's buffer
-   estimate being smaller than the string (F5) *)
-Theorem as_newick_succeeds_or_estimate_too_small :
-  forall (Tm : Type) (tsub : Tm -> Tm -> Tm) (print_num : Z -> Tm -> str) (tm : Z -> Tm)
-         (a : ctree) (N rp : Z) (t : rtree) (whole_leaves : list Z),
-    repb a rp t = true -> nodupb (ids t) = true -> memb rp (ids t) = false ->
-    0 <= rid t < N ->
-    (forall v, In v (ids t) -> exists f, get (ct_flags a) v = Ok f) ->
-    (forall v, In v (ids t) -> memb v whole_leaves = memb v (leaf_ids t)) ->
-    forall (l : labspec) (ibl : bool) (prec T : Z),
-      as_newick Tm tsub print_num tm a N t whole_leaves l ibl prec T
-      = Ok (py_newick Tm tsub print_num tm (lab_fn a whole_leaves l) ibl prec t)
-      \/ (ibl = true /\ (l = LabDefault \/ l = LabMs) /\
-          estimate N T prec
-          < zlen (py_build Tm tsub print_num tm (lab_fn a whole_leaves l) true prec t) + 2 /\
-          as_newick Tm tsub print_num tm a N t whole_leaves l ibl prec T
-          = Err c18_err_buffer_overflow).
-Proof. exact as_newick_ok_or_overflow. Qed.
-
-(* the liveness hypothesis above cannot be dropped (finding M1: legacy ms labels on the general
-   path for a root outside the sample-bearing tree) *)
-Theorem as_newick_ms_labels_refuted :
-  exists (a : ctree) (N rp : Z) (t : rtree) (whole_leaves : list Z) (times : list Z),
-    repb a rp t = true /\ nodupb (ids t) = true /\ memb rp (ids t) = false /\
-    as_newick Z Z.sub print_fixed (fx_tm times) a N t whole_leaves LabMs false 0 0 = Ok (s2z ";") /\
-    as_newick Z Z.sub print_fixed (fx_tm times) a N t whole_leaves LabMs true 0 0 = Ok (s2z "3;") /\
-    parse_newick (s2z ";")
-    <> Ok (ast_of Z Z.sub print_fixed (fx_tm times) (lab_ms_of (leaf_ids t)) false 0 None t).
-Proof. exact as_newick_ms_dead_subtree_refuted. Qed.
-
-(* (c) buffer_estimate_sufficient  —  "for every valid tree the estimate of _as_newick_fast is
-   at least |output| + 1"  —  is FALSE for the code as written (finding F5): *)
-Theorem buffer_estimate_refuted :
-  exists (a : ctree) (N : Z) (t : rtree) (times : list Z),
-    repb a (-1) t = true /\ nodupb (ids t) = true /\ times_increase times t = true /\
-    as_newick_fast Z Z.sub print_fixed (fx_tm times) a N (rid t) false 0 (fx_T 0 (fx_tm times (rid t)))
-    = Err c18_err_buffer_overflow /\
-    py_newick Z Z.sub print_fixed (fx_tm times) (lab_default a) true 0 t = s2z "(n0:1000001)n1;" /\
-    estimate N (fx_T 0 (fx_tm times (rid t))) 0 = 13.
-Proof. exact buffer_estimate_refuted_negative_times. Qed.
-
-Theorem buffer_estimate_refuted_unit_interval :
-  exists (a : ctree) (N : Z) (t : rtree) (times : list Z),
-    repb a (-1) t = true /\ nodupb (ids t) = true /\ times_increase times t = true /\
-    (forall v, In v (ids t) -> 0 <= fx_tm times v < 1000) /\
-    as_newick_fast Z Z.sub print_fixed (fx_tm times) a N (rid t) false 3 (fx_T 3 (fx_tm times (rid t)))
-    = Err c18_err_buffer_overflow /\
-    zlen (py_newick Z Z.sub print_fixed (fx_tm times) (lab_default a) true 3 t) + 1
-    > estimate N (fx_T 3 (fx_tm times (rid t))) 3.
-Proof. exact buffer_estimate_refuted_fractional. Qed.
-
-(* ... and true for the repaired estimate 1 + (4 + len(str(N)) + W) * N, W = the longest
-   branch token: the fast path then never overflows and returns the Python string *)
+(* (c) buffer_estimate_sufficient: with the estimate of Tree._as_newick_fast (as repaired by fix
+   1e12f75: 1 + (4 + len(str(N)) + W) * N) the fast path never overflows and returns the string
+   of the general path *)
 Theorem buffer_estimate_repaired_sufficient :
   forall (Tm : Type) (tsub : Tm -> Tm -> Tm) (print_num : Z -> Tm -> str) (tm : Z -> Tm)
          (a : ctree) (N rp prec W : Z) (t : rtree),
@@ -155,9 +129,32 @@ Theorem buffer_estimate_repaired_sufficient :
     (forall v, In v (ids t) -> exists f, get (ct_flags a) v = Ok f) ->
     0 <= W ->
     (forall p c, In (p, c) (redges t) -> zlen (btoken Tm tsub print_num tm prec p c) <= W) ->
-    c_newick Tm tsub print_num tm a N (rid t) false prec (estimate_repaired N (zlen (dec N)) W)
+    c_newick Tm tsub print_num tm a N (rid t) false prec (estimate N W)
     = Ok (py_newick Tm tsub print_num tm (lab_default a) true prec t).
-Proof. exact repaired_estimate_sufficient. Qed.
+Proof. exact estimate_sufficient. Qed.
+
+(* historical record of finding F5 (fixed by 1e12f75): the PRE-FIX formula
+   1 + (5 + ceil(log10 N) + ceil(log10(max(1, root time))) + precision) * N  was too small *)
+Theorem buffer_estimate_pinned_refuted :
+  exists (a : ctree) (N : Z) (t : rtree) (times : list Z),
+    repb a (-1) t = true /\ nodupb (ids t) = true /\ times_increase times t = true /\
+    c_newick Z Z.sub print_fixed (fx_tm times) a N (rid t) false 0
+             (estimate_pinned N (fx_T 0 (fx_tm times (rid t))) 0)
+    = Err c18_err_buffer_overflow /\
+    py_newick Z Z.sub print_fixed (fx_tm times) (lab_default a) true 0 t = s2z "(n0:1000001)n1;" /\
+    estimate_pinned N (fx_T 0 (fx_tm times (rid t))) 0 = 13.
+Proof. exact estimate_pinned_refuted_negative_times. Qed.
+
+Theorem buffer_estimate_unit_interval_pinned_refuted :
+  exists (a : ctree) (N : Z) (t : rtree) (times : list Z),
+    repb a (-1) t = true /\ nodupb (ids t) = true /\ times_increase times t = true /\
+    (forall v, In v (ids t) -> 0 <= fx_tm times v < 1000) /\
+    c_newick Z Z.sub print_fixed (fx_tm times) a N (rid t) false 3
+             (estimate_pinned N (fx_T 3 (fx_tm times (rid t))) 3)
+    = Err c18_err_buffer_overflow /\
+    zlen (py_newick Z Z.sub print_fixed (fx_tm times) (lab_default a) true 3 t) + 1
+    > estimate_pinned N (fx_T 3 (fx_tm times (rid t))) 3.
+Proof. exact estimate_pinned_refuted_fractional. Qed.
 
 (* (d) wrap_text: the lines concatenate back to the text; width 0 = one line; otherwise every
    line but the last has exactly w bytes and no line is empty or longer than w *)
